@@ -65,6 +65,7 @@ Emit ==
   /\ ldb' = InitL /\ ndb' = InitN /\ cdb' = InitC /\ idx' = InitI
   /\ failed' = "no" /\ act' = [name |-> "Init"] /\ res' = "ok"
   /\ hot' = FALSE /\ fcov' = {} /\ fnext' = 0
+  /\ rd' = NoRd /\ rdone' = NoRdone
   /\ hist' = <<>> /\ steps' = 0
 
 MBTNext == IF steps >= MaxSteps \/ failed # "no" THEN Emit ELSE Step
